@@ -217,5 +217,23 @@ PROPS["C17"] = dict(
     assumptions=["'latest' = highest release version, or highest pre-release when there is no release (modload.LatestVersion's documented behaviour)"],
 )
 
+PROPS["C16"] = dict(
+    pkg="c16",
+    level="fault_enumeration",
+    schedule_dependent=True,
+    tools={"fetcher": "worker/fetcher"},
+    timeout_quick=1500,
+    subs=[
+        dict(name="crash-points", test="TestCrashPoints", quick=1, thorough=1, shards=16),
+        dict(name="concurrent", test="TestConcurrent", quick=12, thorough=400, shards=8),
+    ],
+    technique="fault enumeration: every (effect system call, N-th call) of a traced Cache.Fetch becomes a SIGKILL crash point via strace injection, single and double crashes and registry body faults, each followed by a clean fetch checked against the generator's ground truth; rapid-generated concurrent multi-process histories",
+    level_text="fault enumeration: for each module shape the worker's fetch is traced once, then re-run once per crash point with SIGKILL delivered on entry to that system call (between two file-system effects), for openat/mkdirat/rename*/unlink*/write/fchmod*/flock; after every interrupted history FetchFromCache must be not-found or complete, cached zip/mod files absent or identical to the registry's, and a clean fetch must return exactly the module's files; registry faults (error mid-body, short body) must surface as errors; 2-4 processes x 1-4 goroutines fetch concurrently with registry latency, optionally with one process killed.",
+    level_note="trusted: strace's inject semantics (signal on syscall entry, per-thread per-syscall counters) and runtime.LockOSThread pinning the fetch to one thread (verified by the dry run: all effect calls between the markers belong to one thread); the worker's ground-truth file list; no source hook is added to /repo",
+    rule="crash-points: enumerate all crash points of 3 module shapes (thorough: 33 shapes, every point also followed by a second crash); non-trivial = the kill left some file in the cache directory (partial state) or a registry fault was injected; distinct = (module shape, crash points, fault). concurrent: k processes x m goroutines on one cache directory with seed-derived registry delays.",
+    assumptions=["kill points are on entry to a system call: a crash in the middle of a single write(2) (torn write) is not produced",
+                 "the Go scheduler and the kernel decide the interleaving of the concurrent histories; they are perturbed, not owned"],
+)
+
 NOT_APPLICABLE = {}
 HOOK_COMMITS = []
